@@ -63,8 +63,11 @@ def plan(tier: str, seed: int) -> Plan:
                                    bounds=f"{len(operands)} operands; leaves {leaf} (values decide which intersections are empty)"))
     for q, s in [("$..*", "nest1"), ("$.a | $.b", "obj2"), ("$[?@.a == $[0].a]", "objarr"), ("$.* & $..a", "nest1"), ("$.a[?@ == $.b.a]", "nest1")] + (
             [("$..a", "deep"), ("$[*]", "arr"), ("$.a & $.b & $.a", "obj2")] if thorough else []):
-        conds.append(Condition(f"forms:{s}:{q}", "forms", H, "forms", {"operands": [q], "ops": [], "spine": s, "maxn": 1, "pooln": 14 if thorough else 6}, T * 2, required=False,
-                               bounds="2 leaves chosen by symbolic indices from a pool of 6 (thorough 14) values (solver-driven enumeration: json.dumps concretises)"))
+        conds.append(Condition(f"forms:{s}:{q}", "forms", H, "forms", {"operands": [q], "ops": [], "spine": s, "maxn": 1, "pooln": 14 if thorough else (4 if s == "nest1" else 6)}, T * 2, required=False,
+                               bounds="2 leaves chosen by symbolic indices from a pool of 4-6 (thorough 14) values (solver-driven enumeration: json.dumps concretises)"))
+        conds.append(Condition(f"forms-history:{s}:{q}", "forms", H, "forms_history", {"operands": [q], "ops": [], "spine": s, "maxn": 1, "pooln": 10 if thorough else 4}, T * 2, required=False,
+                               bounds="as forms, pool of 4 (thorough 10): blank-space-led text, async entry points on text/file/bytes, results of a first call "
+                                      "modified before a second call on the same text"))
     return Plan(
         conditions=conds,
         explanation=(
